@@ -12,6 +12,7 @@
 #include "log.h"
 #include "storage.h"
 #include "tree_instance.h"
+#include "verif_hook.h"
 
 #include "glog/logging.h"
 
@@ -56,7 +57,10 @@ status storage::delete_storage(std::string_view storage_name) { // NOLINT
      * tree destroyed here is the old one (destroyed twice, the new one leaked).
      */
     std::unique_lock<std::mutex> lk{mtx_delete_storage_, std::defer_lock};
-    while (!lk.try_lock()) { _mm_pause(); }
+    while (!lk.try_lock()) {
+        YK_VERIF(k_spin, &mtx_delete_storage_, f_generic, 0);
+        _mm_pause();
+    }
     Token token{};
     while (status::OK != enter(token)) { _mm_pause(); }
     // search storage
